@@ -1,6 +1,8 @@
 import ZbossModel.Proofs.HostBound
 import ZbossModel.Proofs.HostRest
 import ZbossModel.Proofs.HostKeys
+import ZbossModel.Proofs.HostListen
+import ZbossModel.Props.C12
 /-! # C13 - a finished request leaves nothing behind, however it finished
 
 `Host.step` is the request machine at quiescent points: request start, ACK / response bytes,
@@ -104,5 +106,23 @@ example : let st := (runEvents {} [.start 1 5 false 1 3013, .rxAck 0, .tick, .st
 example : let r := runEvents {} [.start 1 5 true 2 3013, .start 2 5 true 1 5026, .cancel 2, .rxAck 0, .rxAck 1,
       .start 3 5 true 1 3039, .rxRsp 5, .rxAck 2, .rxRsp 5]
     r.1.listeners = [] ∧ r.2.getLast? = some [.wack, .done 3 .ret] := by decide +kernel
+
+/-- **the request machine's response routing is the listener table's**: in every reachable state the waiters of the running
+    requests form a listener table (`Dispatch.requestTable`: one one-shot listener per waiter, with the all-wildcard
+    pattern of its response class, in registration order) on which the dispatch loop of `frame_received` (model of C12)
+    resolves exactly the waiter that the request machine's `find?` picks, and after the deferred removal leaves exactly
+    the list that its `filter` leaves.  So the abstraction of the listeners used by the C11 / C13 / C14 / C20 theorems
+    is a refinement of the C12 model - not a second, independent reading of `api.py`. -/
+theorem C13_routing_is_listener_table (evs : List Ev) (key : Nat) (ps : List (Option Nat)) :
+    Dispatch.resolvedOf (Dispatch.dispatch ⟨key, ps⟩ (Dispatch.requestTable (runEvents {} evs).1.listeners) false).2 =
+        (((runEvents {} evs).1.listeners.find? fun l => l.2 == key).map (·.1)).toList ∧
+    ((Dispatch.dispatch ⟨key, ps⟩ (Dispatch.requestTable (runEvents {} evs).1.listeners) false).1.filter fun l => !l.done) =
+      match (runEvents {} evs).1.listeners.find? fun l => l.2 == key with
+      | none => Dispatch.requestTable (runEvents {} evs).1.listeners
+      | some (i, _) => Dispatch.requestTable ((runEvents {} evs).1.listeners.filter (·.1 != i)) :=
+  ⟨Dispatch.C12_request_waiters _ key ps, Dispatch.C12_request_waiters_table _ key ps (ln_reachable evs)⟩
+
+/-- one waiter per request, in every reachable state -/
+theorem C13_one_waiter_per_request (evs : List Ev) : ((runEvents {} evs).1.listeners.map (·.1)).Nodup := ln_reachable evs
 
 end Zboss.Host
